@@ -106,10 +106,10 @@ def run_mutant(mut, feature_set='default', cmdline=None):
         else:
             core.run_rules(ctx, only=only)
         bad = [r for r in ctx.results if r.status in ('violation', 'shape')]
+        known, _ = core.load_known()
+        kk = set(k for _, k in known)
+        bad = [r for r in bad if r.key not in kk]     # the known findings of the unchanged tree never count as a detection
         if mut.get('benign'):
-            known, _ = core.load_known()
-            kk = set(k for _, k in known)
-            bad = [r for r in bad if r.key not in kk]
             if mut.get('unrecognised'):
                 return {'id': mut['id'], 'status': 'unrecognised' if bad else 'recognised',
                         'reports': ['%s %s/%s: %s' % (r.status, r.rule, r.instance, r.msg) for r in bad][:6]}
